@@ -490,6 +490,20 @@ def rand_mesh_tokens(rng, one_class):
                 cells ^= {c}
             out.append(c08.mtok(q, cells))
             continue
+        if out and rng.random() < 0.25:
+            # planted redundant longer pattern: a (possibly lexicographically smaller) container of an
+            # earlier pattern's permutation, together with the unshaded/classical form of the latter
+            q, _ = mval(rng.choice(out))
+            q2 = q
+            for _ in range(rng.randrange(1, 3)):
+                if len(q2) < 4:
+                    q2 = insert_point(rng, q2)
+            if len(q2) > len(q):
+                out.append(ptok(q) if not one_class else c08.mtok(q, []))
+                m = len(q2)
+                cells = [(x, y) for x in range(m + 1) for y in range(m + 1) if rng.random() < rng.choice((0.0, 0.1, 0.3))]
+                out.append(c08.mtok(q2, cells))
+                continue
         if one_class or rng.random() < 0.6:
             cells = [(x, y) for x in range(n + 1) for y in range(n + 1) if rng.random() < rng.choice((0.1, 0.3, 0.5))]
             out.append(c08.mtok(p, cells))
